@@ -28,8 +28,8 @@ func c17Scenario(rng *rand.Rand) *prodScenario {
 	sc := &prodScenario{Topics: []string{"t"}, CloseMode: "asyncclose", ChannelBuf: -1, Acks: sarama.WaitForLocal, RetryMax: 1, Submitters: 1, Version: sarama.V0_11_0_0}
 	sc.Brokers = 1 + rng.Intn(3)
 	sc.Parts = 1 + rng.Intn(6)
-	sc.Partitioner = []string{"hash", "refhash", "manual", "roundrobin", "random", "customhash"}[rng.Intn(6)]
-	if rng.Intn(5) < 2 || sc.Partitioner == "customhash" {
+	sc.Partitioner = []string{"hash", "refhash", "manual", "roundrobin", "random", "customhash", "custompart"}[rng.Intn(7)]
+	if rng.Intn(5) < 2 || sc.Partitioner == "customhash" || sc.Partitioner == "custompart" {
 		// two topics: two partitioner instances from one constructor, driven by two goroutines of the producer
 		sc.Topics = []string{"t", "u"}
 	}
@@ -139,7 +139,7 @@ func oracleC17prod(res *prodResult, vs *violSet, rec *proto.Rec) {
 		switch sc.Partitioner {
 		case "manual":
 			consistent = true
-		case "hash", "refhash", "customhash":
+		case "hash", "refhash", "customhash", "custompart":
 			consistent = keyed
 		}
 		want := writable
